@@ -28,6 +28,7 @@ CHECKS = {
                                {"file": "ring/replication_set_tracker.go", "rewrite": ['"sync"', '"go.uber.org/atomic"', '"math/rand"']}])]},
     "C14": {"parts": [P("instance-ranges", "./c14", "^TestC14Instances$"), P("partition-ranges", "./c14", "^TestC14Partitions$")]},
     "C16": {"parts": [P("random-generator", "./c16", "^TestC16Random$"), P("spread-minimizing", "./c16", "^TestC16SpreadMinimizing$")]},
+    "C19": {"parts": [P("wrappers", "./c19", "^TestC19Wrappers$"), P("jump-hash", "./c19", "^TestC19JumpHash$")]},
     "C20": {"parts": [P("validation", "./c20", "^TestC20Validation$"), P("propagation", "./c20", "^TestC20Propagation$")]},
     "C15": {"parts": [P("routing", "./c15", "^TestC15Routing$"), P("replication-sets", "./c15", "^TestC15ReplicationSets$")]},
 }
